@@ -137,7 +137,7 @@ def datagram_cases(R, r, cat, n, gen_input):
     while len(cases) < n and tries < 4 * n:
         tries += 1
         role = r.choice(["client", "server"])
-        state = r.choice(R.STATES + R.ZERO_RTT_STATES)
+        state = r.choice(R.STATES + R.SPARE_CID_STATES + R.ZERO_RTT_STATES)
         sim, victim, _ = R.build_state(role, state, r.randrange(1000))
         tap = R.DatagramTap(victim.conn)
         res = R.Result()
@@ -152,6 +152,8 @@ def datagram_cases(R, r, cat, n, gen_input):
                         spec["mut"] = [["coalesce", r.randrange(50)]]
                     if r.random() < 0.1:
                         spec["reserved"] = True
+                    if r.random() < 0.3:
+                        spec["dcid"] = r.choice([f"host:{r.randrange(8)}", "retired:0", "unknown:8"])
                 else:
                     spec = gen_input(r)
                 R.apply_input(sim, victim, spec, res, seen, tap=tap)
